@@ -3,7 +3,7 @@ import vp
 from checks import grammar_common as g
 
 LEVEL = "model_checking"
-SPECDIRS = g.SPECDIRS + ("c13",)
+SPECDIRS = g.SPECDIRS + ("c13", "c04")
 
 
 def run(ctx):
@@ -27,6 +27,11 @@ def run(ctx):
         ctx.tlc("Gen_c13", cfg, env={"CASE_FILE": cf}, workers=1)
         parts.append((part, cf))
     parts += g.gen_statements(ctx, "selectq")[: (1 if ctx.quick else 2)]
+    # (c) every single-token mutation (delete / duplicate / swap / truncate / replace) of the 30 base statements of
+    # spec/c04/Gen_c04w.tla: whatever the parser still accepts must be total under every operation
+    from checks import c04 as _c04
+    cf, _r = _c04.gen(ctx, "Gen_c04w", "mut", {"N": 1, "Part": '"mut"', "Sizes": "{64}"})
+    parts.append(("mutations", cf))
     for name, cf in parts:
         of = ctx.path("obs_%s.ndjson" % name)
         ctx.drive("c13", cf, of)
